@@ -6,13 +6,16 @@
 (* A line is appended to pending; the pending text is submitted as soon as *)
 (* the lines entered so far close every list they opened, and not before.  *)
 (* "Closed" is defined through the specification's reader: the text lexes  *)
-(* and its nesting depth is <= 0.  Where the text does not lex at the      *)
-(* point of the line break (an unterminated string or |identifier|) the    *)
-(* property does not say what happens: Constrained(text) is FALSE.         *)
+(* and its nesting depth is <= 0.  A text that ends inside a string or     *)
+(* |identifier| opened inside a list is not closed (the list is open).     *)
+(* Where the text does not lex otherwise at the point of the line break    *)
+(* the property does not say what happens: Constrained(text) is FALSE.     *)
 (***************************************************************************)
 EXTENDS Reader
 
-Constrained(text) == Lex(text).k = "tokens"
+\* the text ends inside a string or |identifier| that was opened inside a list: the list is certainly not closed
+OpenInsideList(L) == L.k = "error" /\ "open" \in DOMAIN L /\ DepthOf(L.toks, 1, 0) > 0
+Constrained(text) == LET L == Lex(text) IN L.k = "tokens" \/ OpenInsideList(L)
 Closed(text) == LET L == Lex(text) IN L.k = "tokens" /\ DepthOf(L.toks, 1, 0) <= 0
 
 ReplInit == [pending |-> <<>>, subs |-> <<>>, ok |-> TRUE]
